@@ -138,7 +138,37 @@ def _membership_guard(facts, key: str, container: str) -> bool:
 
 
 # ------------------------------------------------------------------- T1 / T2
-def check_lookup_totality(ctx) -> None:
+def classdb_closure(P: Program, entry: Set[str]) -> Set[str]:
+    """Qualified names of the ClassDB / mapping methods reachable from the given ClassDB
+    methods (name-based call graph inside the three classes; `.get`/`in`/`[]` on the two
+    mappings reach their __getitem__/__contains__)."""
+    todo = [f"ClassDB.{m}" for m in entry]
+    seen: Set[str] = set()
+    while todo:
+        q = todo.pop()
+        if q in seen:
+            continue
+        seen.add(q)
+        cname, mname = q.split(".")
+        cls = P.classes.get(cname)
+        if cls is None or mname not in cls.methods:
+            continue
+        for n in walk_local(cls.methods[mname].node):
+            if isinstance(n, ast.Call) and isinstance(n.func, ast.Attribute):
+                if isinstance(n.func.value, ast.Name) and n.func.value.id == "self" and n.func.attr in cls.methods:
+                    todo.append(f"{cname}.{n.func.attr}")
+                if is_self_attr(n.func.value) and n.func.value.attr in ("class_to_info", "label_to_info"):
+                    tgt = "ClassToInfo" if n.func.value.attr == "class_to_info" else "LabelToInfo"
+                    todo.extend([f"{tgt}.__getitem__", f"{tgt}.__contains__"])
+            if isinstance(n, (ast.Subscript, ast.Compare)):
+                for a in ast.walk(n):
+                    if is_self_attr(a) and a.attr in ("class_to_info", "label_to_info"):
+                        tgt = "ClassToInfo" if a.attr == "class_to_info" else "LabelToInfo"
+                        todo.extend([f"{tgt}.__getitem__", f"{tgt}.__contains__"])
+    return seen
+
+
+def check_lookup_totality(ctx, only: Optional[Set[str]] = None, floor: int = 6) -> None:
     P = ctx.P
     kinds = storage_kinds(P)
     lens = _len_targets(P)
@@ -146,6 +176,8 @@ def check_lookup_totality(ctx) -> None:
     for cname in DB_CLASSES:
         cls = P.need_class(cname)
         for m in cls.methods.values():
+            if only is not None and m.qualname not in only:
+                continue
             f = m.node
             ctx.analysed(m)
             defs = D.definitions(f)
@@ -206,8 +238,8 @@ def check_lookup_totality(ctx) -> None:
                 if hkey is not None and hidx is None:
                     why.append("the enclosing handler catches KeyError, which a list never raises")
                 ctx.violation("T1", node, f"list lookup self.{attr}[{idx_txt}] is not total: " + "; ".join(why))
-    if n_sites < 6:
-        raise AnalysisError(f"T1/T2: only {n_sites} storage subscripts found, floor 6")
+    if n_sites < floor:
+        raise AnalysisError(f"T1/T2: only {n_sites} storage subscripts found, floor {floor}")
 
 
 def _is_label_dict_value(e: ast.AST) -> bool:
